@@ -18,6 +18,7 @@ PROFILES = {
         "features": {"run.multi", "run.tab", "run.break", "run.link", "run.field", "para.heading", "list.flat", "list.nested", "table.simple", "table.multi-para-cell", "table.empty-cell",
                      "container.group", "unit.multi", "unit.empty", "excluded.speaker-notes", "excluded.header-footer", "excluded.comment"},
         "table_text_in_full_text": True, "unit_kind": "slide", "max_units": 4,
+        "opts": {"permute_parts": [False, True], "abs_targets": [False, False, True]},
         "residue_ignore": r"\b\d{1,3}\b",  # slide-number placeholders are deliberately kept by the extractor (class M)
     },
     "odt": {
@@ -62,6 +63,7 @@ PROFILES = {
         "features": FLOW_INLINE | {"run.ins", "run.comment-ref", "para.heading", "list.flat", "list.nested", "table.simple", "table.multi-para-cell", "table.empty-cell",
                                    "table.header-rows", "container.section", "excluded.comment", "unit.multi", "unit.empty"},
         "table_text_in_full_text": False, "unit_kind": "chapter", "max_units": 4, "unit_names": "Chapter ",
+        "opts": {"manifest_reversed": [False, True]},
     },
     "txt": {"sep_any": True, "ext": "txt", "render": lambda doc, **kw: simple.render_txt(doc, **kw), "features": {"run.multi", "run.tab", "run.break", "para.heading", "list.flat", "list.nested", "table.simple"},
             "table_text_in_full_text": True, "unit_kind": "single", "max_units": 1},
